@@ -67,6 +67,7 @@ class History:
         self.cfg = scn["config"]
         self.stall_ok = stall_ok
         self.mtimes: dict[str, tuple[int, int]] = {}  # rel -> (int mtime, size) of last write
+        self.first_mtime: dict[tuple[str, str], float] = {}  # (rel, text) -> mtime when first written
         self.run_clock_ns = 2_000_000_000 * 10**9
         self.n_runs = 0
         self.sync_initial()
@@ -80,16 +81,20 @@ class History:
         files = self.current_files()
         for rel, text in sorted(files.items()):
             self.world.write(rel, text)
+            self.first_mtime[(rel, text)] = self.world.now_s
             self.mtimes[rel] = (int(self.world.now_s), len(text.encode()))
 
     def apply_step(self, step: dict[str, Any]) -> list[str]:
         touched_mods: list[str] = []
         touch_only: list[str] = []
         touch_paths: list[str] = []
+        restore: set[str] = set()
         for op in step.get("edits", []):
             if self.raw:
                 if op["e"] == "write":
                     self.raw_files[op["path"]] = op["text"]
+                    if op.get("restore_mtime"):
+                        restore.add(op["path"])
                 elif op["e"] == "delete":
                     self.raw_files.pop(op["path"], None)
                 elif op["e"] == "touch":
@@ -115,6 +120,8 @@ class History:
             size = len(text.encode())
             t = self.world.now_s
             old = self.mtimes.get(rel)
+            if rel in restore and (rel, text) in self.first_mtime:
+                t = self.first_mtime[(rel, text)]  # restored together with its old timestamp
             if self.stall_ok and old is not None and 2 <= old[1] - size <= 400 and rel.endswith((".py", ".pyi")):
                 # stall family: make the save keep the file size (padding comment), so that together
                 # with an unchanged mtime second the edit is invisible to stat-based change detection
@@ -123,6 +130,7 @@ class History:
             if old is not None and not self.stall_ok and old == (int(t), size):
                 t = float(int(t) + 1)  # an editor save that lands in the same second: next tick
             self.world.write(rel, text, mtime=t)
+            self.first_mtime.setdefault((rel, text), t)
             self.mtimes[rel] = (int(t), size)
             changed.append(rel)
         for rel in touch_paths:
